@@ -24,9 +24,12 @@ DP = "superrec2.utils.dynamic_programming"
 _add(PropertySpec(
     "C16", files=["subsequences", "dynamic_programming"],
     targets=[f"{DP}:Entry.__init__@policies", f"{DP}:Entry.__init__@values", f"{DP}:Entry.value", f"{DP}:Entry.infos",
-             f"{DP}:Entry.is_infinite", f"{DP}:Entry.update", f"{DP}:Entry.combine", f"{DP}:Entry.__iter__"],
+             f"{DP}:Entry.is_infinite", f"{DP}:Entry.update", f"{DP}:Entry.combine", f"{DP}:Entry.__iter__",
+             f"{DP}:EntryProxy.value", f"{DP}:EntryProxy.infos", f"{DP}:EntryProxy.is_infinite"],
     level="proof", standins=["dynamic_programming:Table-proxies"],
     technique="contract-based deductive verification: sidecar contracts + loop invariants on the real AST, VCs discharged by z3/cvc5",
+    not_decided=["Table.__getitem__/__setitem__/keys, TableProxy, EntryProxy._get_real, EntryProxy.update (lazy cell creation), EntryProxy.combine/__iter__/__len__/info, "
+                 "DictDimension / ListDimension storage: NOT discharged (heterogeneous nested dict/list storage), bounded stand-in `Table-proxies` only"],
 ))
 
 RMQ = "superrec2.utils.range_min_query"
